@@ -379,6 +379,67 @@ fn check_compositions(run: &Run) -> u64 {
       }
     }
   });
+  // the same, with one, two or all three operands written as literals in the text (what an evaluator may do with constant
+  // operands when it is built must not change the value): `a op1 b op2 c` without parentheses
+  let plain: Vec<&(String, FeelNumber)> = operands.iter().filter(|(t, _)| t.chars().all(|c| c.is_ascii_digit() || c == '.')).collect();
+  pairs.par_iter().for_each(|(i, j)| {
+    let (op1, op2) = (ops[*i], ops[*j]);
+    let tight = |o: &str| o == "*" || o == "/";
+    let left = !(tight(op2) && !tight(op1));
+    let names: BTreeSet<String> = ["a", "b", "c"].iter().map(|s| s.to_string()).collect();
+    let ps = crate::rval::parse_scope_of(&names);
+    let e1 = prep(binary_text(op1));
+    let e2 = prep(binary_text(op2));
+    let all: Vec<&(String, FeelNumber)> = operands.iter().collect();
+    for mask in 1u8..8 {
+      let pick = |bit: u8| if mask & bit != 0 { &plain } else { &all };
+      for (ta, a) in pick(1).iter().map(|x| (&x.0, &x.1)) {
+        for (tb, b) in pick(2).iter().map(|x| (&x.0, &x.1)) {
+          for (tc, c) in pick(4).iter().map(|x| (&x.0, &x.1)) {
+            count.fetch_add(1, std::sync::atomic::Ordering::Relaxed);
+            let word = |bit: u8, name: &str, lit: &String| if mask & bit != 0 { lit.clone() } else { name.to_string() };
+            let text = format!("{} {} {} {} {}", word(1, "a", ta), op1, word(2, "b", tb), op2, word(4, "c", tc));
+            let node = match dmntk_feel_parser::parse_expression(&ps, &text, false) {
+              Ok(n) => n,
+              Err(e) => {
+                run.violation("composition-with-literals:does-not-parse", &format!("`{}` does not parse: {}", text, e), json!({"engine":"c02","case":{"level":"composition","text":text,"a":ta,"b":tb,"c":tc,"expected":"","observed":""}}));
+                continue;
+              }
+            };
+            let mut ctx = FeelContext::default();
+            ctx.set_entry(&Name::from("a"), Value::Number(*a));
+            ctx.set_entry(&Name::from("b"), Value::Number(*b));
+            ctx.set_entry(&Name::from("c"), Value::Number(*c));
+            let observed = match dmntk_feel_evaluator::evaluate(&Scope::from(ctx), &node) {
+              Ok(v) => val(&v),
+              Err(e) => format!("error {}", e),
+            };
+            let step = |e: &Evaluator, x: &Value, y: &Value| -> Value {
+              match (x, y) {
+                (Value::Number(x), Value::Number(y)) => e(&scope2(x, Some(y))),
+                _ => Value::Null(None),
+              }
+            };
+            let expected = if left {
+              let first = step(&e1, &Value::Number(*a), &Value::Number(*b));
+              step(&e2, &first, &Value::Number(*c))
+            } else {
+              let inner = step(&e2, &Value::Number(*b), &Value::Number(*c));
+              step(&e1, &Value::Number(*a), &inner)
+            };
+            let expected = val(&expected);
+            if observed != expected {
+              run.violation(
+                &format!("composition-with-literals:`a {} b {} c`:{}", op1, op2, ["", "a", "b", "a-b", "c", "a-c", "b-c", "a-b-c"][mask as usize]),
+                &format!("`{}` with a = {}, b = {}, c = {} evaluates to {} but the two operations one after the other give {}", text, ta, tb, tc, observed, expected),
+                json!({"engine":"c02","case":{"level":"composition","text":text,"a":ta,"b":tb,"c":tc,"expected":expected,"observed":observed}}),
+              );
+            }
+          }
+        }
+      }
+    }
+  });
   count.load(std::sync::atomic::Ordering::Relaxed)
 }
 
